@@ -264,3 +264,76 @@ def instance_obligations_parallel(ck: Ck, groups: Sequence[tuple]) -> dict[str, 
     for p_ in parts:
         out.update(p_)
     return out
+
+
+# ------------------------------------------------------------------------------------------------ _get_token / _handle_comment as decision trees
+GT_IMPORTS = IMPORTS + ['SV.Text.HsTable', 'SV.Text.HsGen', 'SV.Text.GtTable', 'SV.Text.GtGen']
+_GT_ROLES = ['dispatch', 'bracket loop', 'paren loop', 'directive loop', 'bare loop', 'star comment loop', 'line comment loop', '_handle_comment entry']
+_GT_ENV = ['class', 'class of second', 'in _OPERATORS', 'in BARE_DISALLOWED', '_last_was_cr', 'line_num == 1', 'string_bracket', 'string_parens',
+           'allow_star_comments', 'preserve_comments', 'colon_operator', 'plus_operator']
+GT_WITNESS_ALPHA = [34, 13, 10, 32, 47, 42, 91, 93, 40, 41, 35, 58, 43, 120, 123, 0xFEFF]
+GT_WITNESS_BITS = [6, 127, 0, 89]
+
+
+def translate_get_token_trees(ck: Ck) -> bool:
+    """Gen/GtTrees_gen.v: the decision trees of Tokenizer._get_token / _handle_comment and the state census of the three
+    functions.  When the translator fails closed, invalid trees are written so that everything else still builds."""
+    from translate import c02_gettoken
+    ok = ck.translate('GtTrees_gen', c02_gettoken.translate)
+    if not ok:
+        ck.gen('GtTrees_gen', c02_gettoken.EMPTY_GEN, {'failed_closed': True})
+    return ok
+
+
+def get_token_tree_obligations(ck: Ck, translated: bool, hs_rows: bool = False) -> None:
+    """Instance obligations about the trees read from _get_token / _handle_comment (one per segment) and the state census.  When
+    a tree differs from the model's function, the differing environments and (small scope, inside Coq) texts on which the
+    code's trees and the hand model give different traces are reported; each such text is run on the implementation."""
+    from harness.common import parse_coq_nested
+    if not translated:
+        return          # translate:GtTrees_gen is already a failed obligation; the invalid trees carry no information
+    extra = {'handle_string_rows_are_the_model': 'handle_string_rows_are_the_model',
+             'handle_string_flag_starts_false': 'handle_string_flag_starts_false'} if hs_rows else {}
+    res = ck.instance_obligations(GT_IMPORTS, {**extra,
+        'get_token_dispatch_is_the_model': 'get_token_dispatch_is_the_model',
+        'bracket_loop_is_the_model': 'bracket_loop_is_the_model',
+        'paren_loop_is_the_model': 'paren_loop_is_the_model',
+        'directive_loop_is_the_model': 'directive_loop_is_the_model',
+        'bare_loop_is_the_model': 'bare_loop_is_the_model',
+        'star_comment_loop_is_the_model': 'star_comment_loop_is_the_model',
+        'line_comment_loop_is_the_model': 'line_comment_loop_is_the_model',
+        'handle_comment_entry_is_the_model': 'handle_comment_entry_is_the_model',
+        'tokenizer_class_binds_no_shared_data_attribute': 'tokenizer_class_binds_no_shared_data_attribute',
+        'tokenizer_functions_read_only_modelled_state': 'tokenizer_functions_read_only_modelled_state',
+        'tokenizer_functions_write_only_modelled_state': 'tokenizer_functions_write_only_modelled_state',
+    }, name='gtinst')
+    side = ck.extra.get('translated', {}).get('GtTrees_gen', {})
+    ck.count('get_token_tree_leaves', side.get('leaves', 0))
+    bad_census = [n for n in res if n.startswith('tokenizer_') and not res[n]]
+    if bad_census:
+        cen = {k: v for k, v in side.get('state_census', {}).items() if v}
+        ck.tie_broken.append(f'state census of _get_token/_handle_comment/_handle_string: {cen}')
+        ck.notes.append(f'state census: {cen}')
+    if all(v for n, v in res.items() if not n.startswith(('tokenizer_', 'handle_string_'))):
+        return
+    ck.tie_broken.append('the decision trees read from Tokenizer._get_token/_handle_comment are not those of the model Text/Tokenizer.v')
+    vals = ck.coq_eval(GT_IMPORTS, ['map (fun p => (fst p, firstn 6 (snd p), length (snd p))) gen_tree_diffs',
+                                    f'firstn 8 (gt_tree_witnesses {coq_chars(GT_WITNESS_BITS)} {coq_chars(GT_WITNESS_ALPHA)} 3)'],
+                       name='gtdiff', preamble=PRE)
+    if vals is None:
+        return
+    diffs = []
+    for role, rows, n in parse_coq_nested(vals[0]):
+        for env, got, want in rows:
+            diffs.append({'segment': _GT_ROLES[role], 'differing_environments': n,
+                          'environment': {k: v for k, v in zip(_GT_ENV, env) if v},
+                          'source (second read, (push back, line increments, _last_was_cr, appends, end, a1, a2))': got, 'model': want})
+    wit = []
+    for bits, w, a, b in parse_coq_nested(vals[1]):
+        text = ''.join(map(chr, w))
+        impl = impl_results(text, bits, len(text) + 2)
+        wit.append({'text': text, 'option_bits': bits, 'trees_of_the_source': decode_results(list(a)), 'hand_model': decode_results(list(b)),
+                    'implementation': decode_results(impl), 'implementation_follows_the_trees': impl == list(a)})
+    ck.extra['get_token_trees'] = {'differing_leaves': diffs[:16], 'witness_texts': wit}
+    ck.notes.append(f'_get_token/_handle_comment: first differing leaf: {diffs[0] if diffs else None}; '
+                    f'first text on which the trees and the model differ: {wit[0] if wit else "none up to length 3"}')
